@@ -3,20 +3,46 @@
 package internal
 
 import (
+	"fmt"
 	"math/big"
 
 	"github.com/bilibili/smgo/sm2/internal/fiat"
 	"verif/refs/sm2ref"
+	"verif/vx"
 )
 
 // in-package seam: direct access to the projective coordinates of a point
 
+// vxSeamRejected: canonical field elements (already reduced mod p) that the library's own decoder refused while the
+// seam was building an operand. The drivers report them (a decoder that refuses a canonical coordinate breaks the
+// round trip the property promises) and go on with the element built from its Montgomery image instead - a defective
+// decoder must end in a VIOLATION line, not in a driver that cannot run.
+var vxSeamRejected []string
+
 func vxElem(v *big.Int) *fiat.SM2Element {
-	e, err := new(fiat.SM2Element).SetBytes(sm2ref.Bytes32(new(big.Int).Mod(v, sm2ref.P)))
+	c := new(big.Int).Mod(v, sm2ref.P)
+	e, err := new(fiat.SM2Element).SetBytes(sm2ref.Bytes32(c))
 	if err != nil {
-		panic(err)
+		if len(vxSeamRejected) < 16 {
+			vxSeamRejected = append(vxSeamRejected, fmt.Sprintf("%x: %v", sm2ref.Bytes32(c), err))
+		}
+		m := new(big.Int).Lsh(c, 256)
+		m.Mod(m, sm2ref.P)
+		var raw [4]uint64
+		mask := new(big.Int).SetUint64(^uint64(0))
+		for i := 0; i < 4; i++ {
+			raw[i] = new(big.Int).And(new(big.Int).Rsh(m, uint(64*i)), mask).Uint64()
+		}
+		return new(fiat.SM2Element).SetRaw(raw)
 	}
 	return e
+}
+
+// vxSeamReport is deferred by every in-package driver (after `defer r.End()`, so that it runs first).
+func vxSeamReport(r *vx.R) {
+	for _, s := range vxSeamRejected {
+		r.Violation("seam:SetBytes-rejects-canonical", "SM2Element.SetBytes refused a canonical field element (below p) while an operand was built: "+s, nil)
+	}
 }
 
 // vxMake builds the projective representative (X:Y:Z) verbatim.
